@@ -111,6 +111,16 @@ def harness(ctx, args, timeout=900, env_extra=None, ok_rcs=(0,)):
     return rc, out
 
 
+def crash_signature(out):
+    """A Go panic / fatal error that killed the harness process: which shisui frames are on the stack?"""
+    m = re.search(r"^(panic: .*|fatal error: .*)$", out, re.M)
+    if not m:
+        return None
+    frames = re.findall(r"^(github\.com/zen-eth/shisui/[^\s(]+(?:\([^)]*\))?[^\s]*)\(", out, re.M)
+    frames += re.findall(r"^\s+(/repo/[^\s:]+):\d+", out, re.M)
+    return {"panic": m.group(1)[:300], "frames": frames[:6]}
+
+
 # ---------------------------------------------------------------------------------------------
 # TLC
 
